@@ -321,6 +321,14 @@ def run_property(pid, tier, seed):
                 payload = dict(w, no_carve=True)
                 rv, detail = xh_custom_replay(payload)
             else:
+                try:
+                    wfam = {x.name: x for x in importlib.import_module(w['module']).FAMILIES}[w['family']]
+                    stale = len(w['sel']) != len(wfam.selectors) or len(w['args']) != len(wfam.params)
+                except Exception:   # noqa
+                    stale = True
+                if stale:
+                    harness_errors.append(f'stale witness of {f["id"]}: it does not match the selectors / parameters of {w["module"]}.{w["family"]} any more')
+                    continue
                 rv, detail = xh.replay_concrete(w['module'], w['family'], w['sel'], w['args'], REPO, env_extra={'VERIF_NO_CARVE': '1'})
             cov['traces_validated_against_impl'] += 1
             if rv == 'fails' and 'TypeError' in detail and ('positional argument' in detail or 'unexpected keyword' in detail) and 'harness/' in detail:
